@@ -706,6 +706,8 @@ def build_explainer(world, ecfg):
     if ecfg["cls"] == "interval":
         if "interval_length" in ecfg:
             kw["interval_length"] = ecfg["interval_length"]
+            if ecfg.get("interval_length_type"):      # a length is a length whatever integer type carries it
+                kw["interval_length"] = getattr(np, ecfg["interval_length_type"])(kw["interval_length"])
         if "storage_length" in ecfg:
             kw["storage_length"] = ecfg["storage_length"]
     names = list(world.names)
